@@ -28,7 +28,16 @@ def main():
     t0 = time.time()
     res = solve_all(obls, timeout_s=int(__import__('os').environ.get('T','30')))
     bad = 0
+    groups = {}
     for o, r in zip(obls, res):
+        if o.kind == "vacuity":
+            groups.setdefault(o.name, []).append(r["result"])
+    for g, rs in groups.items():
+        if all(x == "unsat" for x in rs):
+            print("VACUOUS", g, rs)
+    for o, r in zip(obls, res):
+        if o.kind == "vacuity":
+            continue
         if r["result"] != "unsat":
             bad += 1
             print(r["result"].upper(), o.name, r["time_s"], r["model"], r["reason"])
